@@ -75,7 +75,7 @@ REQUIRED_THOROUGH = ["seeds:at-least-32-distinct"]
 
 QUICK_SEEDS = [0, 1, 2, 3, 4, 5]
 THOROUGH_SEEDS = list(range(32))
-KIND_MIX = [("refine", 6), ("filter", 8), ("hmmer", 2), ("world", 5), ("layout", 4), ("ruleset", 1)]   # hit-level inputs are cheap
+KIND_MIX = [("refine", 6), ("filter", 8), ("hmmer", 2), ("world", 5), ("layout", 4), ("ruleset", 1), ("annotate", 1)]   # hit-level inputs are cheap
 CHILD_TIMEOUT_S = {"quick": 120, "thorough": 300}
 ORDERS = 3
 HERE = os.path.dirname(os.path.dirname(os.path.dirname(os.path.abspath(__file__))))
